@@ -552,6 +552,10 @@ fn gen_patch(rng: &mut Rng) -> String {
             if !is_delegate && rng.chance(1, 2) && (matches!(k, 1 | 2 | 4 | 5) || (matches!(k, 0) && !is_author)) {
                 k = rng.range(6, 29);
             }
+            // assignee sets are changed by delegates and probed (mostly with subsets: [] / [1] / [1,2]) by everybody
+            if rng.chance(1, 10) {
+                k = 4;
+            }
             // keep the review / review-comment flows populated
             let visible_reviews = reviews.iter().any(|v| anc.contains(&(v.id as usize)));
             let visible_rcom = rcom.iter().any(|c| anc.contains(&(c.id as usize)));
